@@ -344,7 +344,7 @@ func (m *Membership) RequestOrderedCommittee(ctx context.Context, blockHeight pr
 		n.w.stats.Fault("spi-error-committee")
 		// the library retries after a fixed real-time pause: tell the scheduler that this node has a timed wake-up
 		n.w.syncClock()
-		n.wakeAt = n.w.now + 250*time.Millisecond
+		n.wakeAt = n.w.now + 200*time.Millisecond + time.Microsecond // the library's fixed retry pause
 		n.w.seq++
 		n.wakeSeq = n.w.seq
 		return nil, errors.New("committee lookup failed")
